@@ -97,6 +97,7 @@ func PackValues(format string, values []rt.Value, budget uint64) (string, uint64
 			_ = p.align(0) &&
 				p.mustGetOptSize() &&
 				p.nextStringValue() &&
+				p.checkStrLen() &&
 				p.writeStr(p.optSize)
 		case 'z':
 			if p.align(0) && p.nextStringValue() {
@@ -199,6 +200,17 @@ func (p *packer) checkFloatSize(max float64) bool {
 	ok := (p.floatVal >= -max && p.floatVal <= max) || math.IsInf(p.floatVal, 0) || math.IsNaN(p.floatVal)
 	if !ok {
 		p.err = errOutOfBounds
+	}
+	return ok
+}
+
+// checkStrLen checks that the current string value is not longer than the
+// size of the current option ('cn').  This includes a size of 0, which
+// writeStr takes as "no maximum length".
+func (p *packer) checkStrLen() bool {
+	ok := uint(len(p.strVal)) <= p.optSize
+	if !ok {
+		p.err = errStringLongerThanFormat
 	}
 	return ok
 }
